@@ -55,7 +55,7 @@ UNARY = ("calc", "proj", "sel", "dedup", "sort", "slice")
 
 
 def budget(tier):
-    return 1500 if tier == "quick" else 40000
+    return 2500 if tier == "quick" else 40000
 
 
 @st.composite
@@ -75,9 +75,22 @@ def st_case(draw, tier, p_restricted=0, p_mat=1):
     universe, leaves, up = draw(st_program(up_cfg))
     if draw(st.integers(0, 4)) == 0:
         up = ("leaf", draw(st.integers(0, len(leaves) - 1)))
-    base = ("xfer", up, T)
     cfg = Cfg(engines=(S, T), max_ops=4, p_restricted=p_restricted)
     counter = 0
+    base = up
+    if draw(st.integers(0, 9)) < 3:
+        # a middle engine between S and T, with operations and (locked) materializations in it
+        M = ({0, 1, 2} - {S, T}).pop()
+        base = ("xfer", base, M)
+        for _ in range(draw(st.integers(0, 2))):
+            if draw(st.integers(0, 9)) < max(p_mat, 3):
+                node = ("mat", base, f"mm{counter}")
+                counter += 1
+            else:
+                node = draw(st_unary_node(base, schema(base, leaves), universe, UNARY, cfg))
+            if node is not None:
+                base = node
+    base = ("xfer", base, T)
     for _ in range(draw(st.integers(0, 4))):
         cols = schema(base, leaves)
         if draw(st.integers(0, 9)) < p_mat:
@@ -103,7 +116,8 @@ def st_case(draw, tier, p_restricted=0, p_mat=1):
         if node is None:
             node = ("dedup", base)
         final = (node[0], None) + tuple(node[2:])
-    return (universe, leaves, S, base, final)
+    preprocess = draw(st.integers(0, 9)) < 2  # issue the final call on an already processed base tree
+    return (universe, leaves, S, base, final, preprocess)
 
 
 def strategy(tier):
@@ -142,7 +156,8 @@ def issue(final, root, fixed_rel, env, opts):
 def run_case(case, stats):
     from lsst.daf.relation import ColumnError, EngineError
 
-    universe, leaves, S, base, final = case
+    universe, leaves, S, base, final, *rest = case
+    preprocess = bool(rest and rest[0])
     T = 1
     third = ({0, 1, 2} - {S, T}).pop()
     if final[0] == "join":
@@ -161,10 +176,7 @@ def run_case(case, stats):
             r = ev_multi(n, leaves, memo=memo)
             if r.det:
                 dedup_rows(r.rows, True)
-            if n[0] == "xfer":
-                r = ev_multi(n[1], leaves, memo=memo)
-                if r.det:
-                    dedup_rows(r.rows, True)
+            if n[0] in ("leaf", "chain", "join"):
                 break
             n = n[1]
     env = Env(leaves)
@@ -178,6 +190,14 @@ def run_case(case, stats):
             stats.c["build:refused"] += 1
             return
         root = rels[id(base)]
+        if preprocess:
+            # the same request on a tree that Processor.process already annotated with transfer payloads
+            try:
+                root = make_processor(env).process(root)
+            except Exception:
+                stats.c["preprocess:failed"] += 1
+                return
+            stats.c["preprocess:done"] += 1
         fixed_rel = env.leafrels[final[2][1]] if final[0] == "join" else None
         before = op_counts(root)
         ctx0 = f"base {fmt(base, leaves)} [{root}]; op {fmt(full, leaves)[-160:]}"
@@ -283,8 +303,10 @@ EXHAUSTIVE_NOTE = (
 )
 
 
-def exhaustive(tier, stats, shard, nshards, run):
-    from vf.checks.c04 import grid
+def grid_cases(tier):
+    """The finite grid shared by C03, C14 and C15 (see EXHAUSTIVE_NOTE)."""
+    from vf.checks.c04 import grid, well_formed
+    from vf.core.expr import cols_p
     from vf.core.matrix import A, B, C, D, UNIVERSE
 
     g = [op for op in grid() if op[0] != "pjoin"]
@@ -294,7 +316,6 @@ def exhaustive(tier, stats, shard, nshards, run):
         ((1, 1, 0), (0, 1, 1), (1, 1, 0), (0, 0, 1), (0, 1, 1)),
     ]
     depth = 1 if tier == "quick" else 2
-    idx = 0
     for S in (0, 2):
         for rows in targets:
             leaves = (
@@ -305,8 +326,6 @@ def exhaustive(tier, stats, shard, nshards, run):
                 base = ("xfer", ("leaf", 0), 1)
                 ok = True
                 for op in chain_ops:
-                    from vf.checks.c04 import well_formed
-
                     if well_formed(op, schema(base, leaves), frozenset()):
                         ok = False
                         break
@@ -315,36 +334,39 @@ def exhaustive(tier, stats, shard, nshards, run):
                     continue
                 cols = schema(base, leaves)
                 finals = [(op[0], None) + tuple(op[1:]) for op in g if not well_formed(op, cols, frozenset())]
-                if S == 0 and not (cols & {D}):
+                if S == 0:
+                    # the fixed operand shares the key column a (and d when the base calculated it)
                     for j in joins:
-                        from vf.core.expr import cols_p
-
                         if j[2] is None or cols_p(j[2]) <= (cols | {A, D}):
                             finals.append(("join", None, ("leaf", 1), j[2], j[1]))
                 for final in finals:
-                    idx += 1
-                    if idx % nshards != shard:
-                        continue
-                    case = (UNIVERSE, leaves, S, base, final)
-                    try:
-                        run(case)
-                    except Violation as v:
-                        v.case = case
-                        raise
-                    stats.c["grid_cases"] += 1
+                    yield (UNIVERSE, leaves, S, base, final)
+
+
+def exhaustive(tier, stats, shard, nshards, run):
+    for idx, case in enumerate(grid_cases(tier)):
+        if idx % nshards != shard:
+            continue
+        try:
+            run(case)
+        except Violation as v:
+            v.case = case
+            raise
+        stats.c["grid_cases"] += 1
 
 
 def describe(case):
-    universe, leaves, S, base, final = case
+    universe, leaves, S, base, final, *rest = case
     d = describe_case(universe, leaves, base)
     d["source_engine"] = f"E{S}"
     d["final_operation"] = repr(final)[:300]
+    d["issued_on_processed_tree"] = bool(rest and rest[0])
     return d
 
 
 def attribute(case, v):
     """D12 (see C04): a projection inserted with backtracking is moved upstream of a deduplication."""
-    universe, leaves, S, base, final = case
+    universe, leaves, S, base, final, *rest = case
     if v.kind == "result-not-executable" and final[0] == "proj" and str(v.extra.get("sig", "")).startswith("KeyError@_engine.py:convert_column_expression"):
         from vf.core.known import TRIGGERS
 
